@@ -27,6 +27,10 @@ harness("prim_pbt", "san", "pbt/prim_pbt.cc", link="-lrapidcheck")
 harness("c11_metadata", "san", "pbt/c11_metadata.cc", link="-lrapidcheck")
 harness("c20_animation", "san", "pbt/c20_animation.cc", link="-lrapidcheck")
 harness("c14_builders", "san", "pbt/c14_builders.cc", link="-lrapidcheck")
+harness("c15_io", "san", "pbt/c15_io.cc", link="-lrapidcheck")
+# the command line tools of the repository, plain optimised build (C15 pipelines)
+harness("draco_encoder", "plain", "repo:src/draco/tools/draco_encoder.cc", whole_archive=True)
+harness("draco_decoder", "plain", "repo:src/draco/tools/draco_decoder.cc", whole_archive=True)
 
 # ------------------------------------------------------------------------------------------------
 
@@ -386,7 +390,29 @@ def check_c14(tier):
                         extra_env={"VERIF_OPEN": ""})
 
 
+def check_c15(tier):
+    t0 = time.time()
+    exes = ensure_built(["c15_io", "draco_encoder", "draco_decoder"])
+    exe = exes["c15_io"]
+    res = Result()
+    run_shards(res, "C15", "c15_io", exe, "c15", tier, 16, 3000 if tier == "quick" else 20000)
+    tmpd = tempfile.mkdtemp(prefix="verif_c15_")
+    try:
+        run_shards(res, "C15", "c15_io", exe, "c15cli", tier, 16, 60 if tier == "quick" else 600,
+                   extra_env={"VERIF_TOOLS_DIR": os.path.dirname(exes["draco_encoder"]), "TMPDIR": tmpd,
+                              "ASAN_OPTIONS": SAN_ENV["ASAN_OPTIONS"].replace("detect_leaks=1", "detect_leaks=0")})
+    finally:
+        shutil.rmtree(tmpd, ignore_errors=True)
+    res.required_classes = ["ply_mesh_checked", "ply_cloud_checked", "stl_checked", "obj_mesh_checked", "obj_cloud_checked",
+                            "cli_obj_pipelines", "cli_ply_pipelines"]
+    return finish("C15", tier, res, t0,
+                  assumptions=["faces and corners of the in-process OBJ / PLY round trips correspond in order (the readers keep "
+                               "file order); the command-line pipelines are compared as multisets",
+                               "the command-line tools are the repository's tools built -O2 without sanitizers"])
+
+
 CHECKS = {
+    "C15": check_c15,
     "C14": check_c14,
     "C20": check_c20,
     "C11": check_c11,
@@ -406,6 +432,7 @@ REPLAYERS = {
     "C11": [("c11_metadata", "c11")],
     "C20": [("c20_animation", "c20")],
     "C14": [("c14_builders", "c14")],
+    "C15": [("c15_io", "c15")],
     "C13": [("c13_corner_table", "c13")],
     "C16": [("prim_pbt", "c16")],
     "C17": [("prim_pbt", "c17")],
